@@ -979,8 +979,8 @@ class Dec(Suite):
             # and, for S, by the binary): go-git's cache tree = the valid nodes in pre-order, EOIE = (offset of the first
             # extension, hash of the extension headers)
             if tree_nodes(s[0]) is not None:
-                want_t = [[n[1], n[2], n[3], n[4]] for n in tree_nodes(s[0]) if not n[2].startswith("-")]
-                got_t = o[3][1] if o[3] != "none" else None
+                want_t = [[unparse(n[1]), n[2], n[3], n[4]] for n in tree_nodes(s[0]) if not n[2].startswith("-")]
+                got_t = [[obytes(bytes.fromhex(e[0][1:])), e[1], e[2], e[3]] for e in o[3][1]] if o[3] != "none" else None
                 stats["tree_vs_S"] += 1
                 if got_t != want_t:
                     fails[c["id"]] = "cache tree differs from what git reads (Spec/GitIndex): go-git %s / git %s" % (unparse(o[3])[:300], unparse(want_t)[:300])
